@@ -16,11 +16,14 @@ The first failing step is the rule of the case. The reference model is "the beni
 is data iff swapping it for 'X' changes nothing but that value.
 
 Signatures: per sink the set of failing strings is reduced to its substring-minimal members (M contains
-every single character of its alphabet, so a minimal member normally is one offending character);
-one signature `C05|<rule>|sink=<sink>|chars=<minimal string>` per minimal member. The chart-type member
-(variant) is not part of the signature, the chart *family* (plot element: area, bar, bubble, doughnut,
-line, pie, radar, xy) is part of the sink name; the quick tier runs one member per family (the first
-in name order), the thorough tier every member python-pptx can write (29).
+every single character of its alphabet, so a minimal member normally is one offending character; a
+longer string that fails only because it contains a failing shorter one is not reported separately).
+Chart sinks exist once per chart *family* (plot element: area, bar, bubble, doughnut, line, pie, radar,
+xy); families failing with the same rule on the same minimal string are merged into one signature
+`C05|<rule>|sink=<entry point>.<field>@<fam1>+<fam2>...|chars=<minimal string>`, so a regression in one
+more family changes the signature. The chart-type member (variant) is not part of the signature: the
+quick tier runs one member per family (the first in name order), the thorough tier every member
+python-pptx can write (29).
 
 Deviations from DESIGN section 4/C05 (all on the weaker side):
 * no batched save: one save/re-open per case (stronger, still cheap);
@@ -60,7 +63,7 @@ RULE = ("every (sink, chart-type variant) of the sink catalogue x every string o
         "Non-trivial = the string contains at least one character outside [A-Za-z0-9]; cases are distinct "
         "by construction (sink, variant, string).")
 ASSUMPTIONS = [
-    "string-set bounded: M (about 140 strings); longer combinations of metacharacters are not explored",
+    "string-set bounded: M = 134 strings (90 over the 9-character alphabet up to length 2, 44 curated); longer combinations of metacharacters are not explored",
     "sink catalogue is hand-written from the public API; entry points not in the catalogue are not explored "
     "(floor: >= 40 sink names, >= 8 chart families)",
     "reference model: the same call with the benign string 'X' (tag skeleton of every XML member), bare lxml",
@@ -232,7 +235,6 @@ def _shape_name_sink(kind):
     def fn(prs, m, tmp):
         slide = _blank(prs, 0 if kind == "placeholder" else 6)
         shp = _mk_shape(slide, kind)
-        n = len(list(slide.shapes))
         idx = [i for i, s in enumerate(slide.shapes) if s.shape_id == shp.shape_id][0]
         shp.name = m
         return (lambda: shp.name), (lambda p2, b: list(p2.slides[0].shapes)[idx].name), m
